@@ -273,6 +273,28 @@ func (r *run) checkCatalogue() {
 		}
 		return
 	}
+	// every change of a catalogue entry belongs to an operation on that very name
+	for _, e := range ents {
+		if !e.ok || !strings.HasPrefix(e.key, "/tables/") || strings.Count(e.key, "/") != 2 || e.index <= r.metaBaseline {
+			continue
+		}
+		name := strings.TrimPrefix(e.key, "/tables/")
+		explained := false
+		for _, op := range r.cat {
+			if op.name == name && op.kind != "list" && e.index > op.callAt && (e.index <= op.retAt || !op.done) {
+				explained = true
+			}
+		}
+		for _, w := range r.restoreWins[name] {
+			if e.index > w[0] && e.index <= w[1] {
+				explained = true
+			}
+		}
+		if !explained {
+			r.fail("C14", "catalogue-change-unexplained", "catalogue-change-unexplained:"+e.op, "the catalogue entry of table %s was changed (%s, metadata log index %d) although no create, delete or restore of that table was in progress", name, e.op, e.index)
+			return
+		}
+	}
 	claimedCreate := map[uint64]bool{}
 	for _, op := range r.cat {
 		r.dig.AddString(op.kind + op.name)
